@@ -236,7 +236,7 @@ package fsnotify
 //@ func (w *inotify) handleEvent(inEvent *unix.InotifyEvent, buf *[65536]byte, offset uint32) (ev Event, ok bool)
 //@   requires token(sawOpen)                  [C14 C13 C06] "only an operation that has seen the Watcher open goes on to use its descriptor"
 //@   mode modeA: !enableRecurse
-//@   mode modeB: enableRecurse                    [C19 C05]
+//@   mode modeB: enableRecurse                    [C19 C05 C03]
 //@   requires modeB ==> inEvent.Mask & (unix.IN_IGNORED | unix.IN_UNMOUNT | unix.IN_DELETE_SELF | unix.IN_MOVE_SELF) == 0       [C19] "mode B (the unfinished recursive feature) is verified for notifications that do not end a watch"
 //@   requires token(reader) && nolocks() && Wf(w) && RingInv(w) && inEvent != nil && buf != nil
 //@   requires !closed(w.Errors) && !closed(w.Events)
@@ -258,6 +258,8 @@ package fsnotify
 //@   ensures ev.Op != 0 ==> ev.Name == nm                                                                 [C02 C08] "named by the watch path as added, a separator and the kernel's entry name without padding"
 //@   ensures modeA && live && ok && mask & (unix.IN_IGNORED | unix.IN_UNMOUNT) == 0 &&
 //@             !(mask & unix.IN_DELETE_SELF != 0 && has(P1, filepath.Dir(wpath))) ==> ev.Op == specOpInotify(mask) && ev.Name == nm   [C01 C08] "every other notification for a live watch is translated, not dropped"
+//@   ensures modeA && live && ok && mask & (unix.IN_IGNORED | unix.IN_UNMOUNT) == 0 && mask & unix.IN_DELETE_SELF != 0 && ev.Op == 0 ==>
+//@             has(P1, filepath.Dir(wpath))                                                               [C01 C09] "the Remove for a deleted watched path is left out only when the directory its path lies in is watched too (nothing else about the watch or its history suppresses it)"
 //@   ensures modeA && live && ok && mask & (unix.IN_IGNORED | unix.IN_UNMOUNT) == 0 && mask & unix.IN_DELETE_SELF != 0 && ev.Op == 0 ==>
 //@             kparentWatched(wd)                                                                         [C01 C09] "a suppressed IN_DELETE_SELF is one the watched parent directory reports"
 //@   ensures modeA && live && mask & gone == 0 ==> atUnlock(w.watches.wd) == W1 && atUnlock(w.watches.path) == P1     [C01 C02 C04 C08 C09 C12] "other notifications (e.g. the IN_ATTRIB of an unlink with an open descriptor) keep the watch"
